@@ -30,20 +30,29 @@ with effective opcode `op` still owes `V` to the caller -/
 def Rem (op : Byte) (R V : List Byte) : Prop :=
   if op = opBinary then V = R else if op = opText then R = ntop V else V = []
 
-inductive Inv : Ctx → List Byte → List Byte → Prop
-  | done (opc fin : Byte) (pl : Nat) (co : Byte) : Inv (ctxAtHeader [] opc fin pl co) [] []
+/-- the message that is open after a frame sequence -/
+def endCo : Byte → List Frame → Byte
+  | co, [] => co
+  | co, f :: fs => endCo (f.afterCo co) fs
+
+/-- `Inv T cE live c pending V`: the decoder context `c`, with `pending` bytes still in the transport,
+is somewhere inside a valid frame sequence that is followed by the bytes `T`; it still owes exactly
+`V` to the caller; `cE` is the message open at the end of the valid frames; `live = false` exactly
+when all valid frames are finished (the next bytes are `T`) -/
+inductive Inv (T : List Byte) (cE : Byte) : Bool → Ctx → List Byte → List Byte → Prop
+  | done (opc fin : Byte) (pl : Nat) : Inv T cE false (ctxAtHeader [] opc fin pl cE) T []
   | header (f : Frame) (fs : List Frame) (co co' : Byte) (j : Nat) (opc fin : Byte) (pl : Nat) :
-      ValidSeq co (f :: fs) → j < f.header.length →
-      (co' = co ∨ (2 ≤ j ∧ co' = f.nextCo co)) →
-      Inv (ctxAtHeader (f.header.take j) opc fin pl co')
-          (f.header.drop j ++ (xorMask f.mask f.payload ++ wireOf fs)) (expected co (f :: fs))
+      ValidSeq co (f :: fs) → endCo co (f :: fs) = cE → j < f.header.length →
+      (co' = co ∨ co' = f.nextCo co) →
+      Inv T cE true (ctxAtHeader (f.header.take j) opc fin pl co')
+          (f.header.drop j ++ (xorMask f.mask f.payload ++ (wireOf fs ++ T))) (expected co (f :: fs))
   | frame (f : Frame) (fs : List Frame) (co : Byte) (a : Nat) (cu rest rd Vf : List Byte)
       (rp : Option Nat) (st : St) :
-      ValidSeq co (f :: fs) → (rest ≠ [] → a % 4 = 0) → cu.length ≤ 3 →
+      ValidSeq co (f :: fs) → endCo co (f :: fs) = cE → (rest ≠ [] → a % 4 = 0) → cu.length ≤ 3 →
       f.payload.length = a + cu.length + rest.length → (rest = [] → cu = []) →
       Rem (f.effOp co) (cu ++ rest) Vf →
       ((rd = [] ∧ st = .dataNeeded ∧ rest ≠ []) ∨ (rd ≠ [] ∧ st = .dataAvailable ∧ rp.isSome)) →
-      Inv (ctxInFrame f co a cu rd rp st) (xorFrom f.mask (a + cu.length) rest ++ wireOf fs)
+      Inv T cE true (ctxInFrame f co a cu rd rp st) (xorFrom f.mask (a + cu.length) rest ++ (wireOf fs ++ T))
           (rd ++ (Vf ++ expected (f.afterCo co) fs))
 
 end VncModel.Ws
